@@ -19,7 +19,19 @@ FONTS = ['otf', 'otf', 'woff', 'woff2', 'otf_cut', 'woff_bad', 'woff2_bad', 'emp
 ATTACHED = ['png', 'css', 'empty', 'html', 'garbage']
 _counter = itertools.count(1)
 CASE_SECONDS = 20      # one document: render + write_pdf (normally a few hundredths of a second)
-LATE = ('background', 'borderimage')      # fetched by layout_backgrounds, after the whole tree has been built
+LATE = ('background', 'borderimage', 'maskborder')      # fetched by layout_backgrounds, after the whole tree has been built
+PAGE_KINDS = ('marginbox', 'pagebg')                    # images of the page itself: no element, no wrapper block
+
+
+def fetch_rank(kind):
+    """Stage of the render in which the image of a reference is fetched: boxes are built for the whole tree; the content
+    of the page margin boxes when the page is made; then backgrounds, border images and masks of the boxes of the page
+    (children first), then the background of the page box itself."""
+    return 1 if kind == 'marginbox' else 3 if kind == 'pagebg' else 2 if kind in LATE else 0
+
+
+def fetch_order(images):
+    return sorted(range(len(images)), key=lambda i: fetch_rank(images[i]['kind']))
 
 
 def doc_fonts(rng):
@@ -276,7 +288,7 @@ class DocGen:
                 self.styles.append({'kind': 'link', 'text': text, 'url': url, 'sheet': sheet})
                 self.kinds.add('link')
         for _ in range(rng.choice([0, 1, 2, 3, 4, 6])):
-            kind = rng.choice(['img', 'img', 'img', 'embed', 'object', 'background', 'liststyle', 'content', 'borderimage'])
+            kind = rng.choice(['img', 'img', 'img', 'embed', 'object', 'background', 'liststyle', 'content', 'borderimage', 'maskborder'])
             if rng.random() < 0.07:
                 # an inline <svg> element: its <image> / <use> elements are fetched when it is painted, relative to the document
                 key = f'inline:{self.n}x{next(self.ids)}'
@@ -300,6 +312,13 @@ class DocGen:
                     not url.startswith('data:') and rng.random() < 0.22):
                 self.table[url] = self.svg_document(url)
                 self.kinds.add('svg-with-references')
+            elif (url not in self.table and kind not in ('img', 'embed', 'object') and not url.startswith('data:')
+                  and rng.random() < 0.15):
+                # an SVG with <image> elements as a CSS image: painted in the pass of its kind (backgrounds, border images
+                # and masks; then inline content; then list markers), possibly several times (border image: nine parts) —
+                # its references are plain ones, for which the number of drawings cannot be seen
+                self.table[url] = self.svg_document(url, css=True)
+                self.kinds.add('svg-as-css-image')
             if url not in self.table:
                 redirects = [None] * 6 + [f'file://{self.tmp}/redir{self.n}x{next(self.ids)}.png', 'http://cdn.test/moved.png']
                 spec = fail_spec(rng, names, 0.35, mimes=[None, 'image/png', 'image/svg+xml', 'text/html', 'image/jpeg'],
@@ -307,7 +326,7 @@ class DocGen:
                 self.table[url] = spec
                 self.local_file(url, spec)
             orient = rng.choice(['from-image'] * 5 + ['none', (90, False)])
-            if kind in ('liststyle', 'content', 'borderimage'):
+            if kind in ('liststyle', 'content', 'borderimage', 'maskborder'):
                 orient = 'from-image'   # ::marker / ::before do not inherit image-orientation in WeasyPrint
             if kind in ('img', 'embed', 'object') and rng.random() < 0.15:
                 text = rng.choice([' {} ', '\n{}', '{}\t ', '  {}\n']).format(text)     # HTML: the attribute value is stripped
@@ -321,6 +340,15 @@ class DocGen:
                                 'orient': orient, 'forced': rng.choice([None, None, 'image/png', 'image/svg+xml'])
                                 if kind in ('embed', 'object') else None})
             self.kinds.add(kind)
+        for kind in PAGE_KINDS:
+            # an image in a page margin box (@top-left { content: url() "M" }) / as the background of the page box
+            if rng.random() < 0.18:
+                text, url = self.url('pic', rng.choice(['png', 'jpg']))
+                if url not in self.table:
+                    self.table[url] = fail_spec(rng, doc_images(rng), 0.35, mimes=[None, 'image/png', 'text/html', 'image/jpeg'])
+                self.images.append({'kind': kind, 'layers': None, 'text': text.strip(), 'url': url, 'alt': None,
+                                    'orient': 'from-image', 'forced': None})
+                self.kinds.add(kind)
         for _ in range(rng.choice([0, 0, 1, 2])):
             text, url = self.url('att', 'bin')
             self.table.setdefault(url, fail_spec(rng, ATTACHED, 0.5))
@@ -370,7 +398,7 @@ class DocGen:
         values[layers['at']] = f"url('{src}')" if src is not None else 'none'
         return f'background-image:{",".join(values)};{layers["decls"]}'
 
-    def svg_document(self, url, depth=0, inline=False):
+    def svg_document(self, url, depth=0, inline=False, css=False):
         """An SVG image whose drawing fetches: <image> elements (href relative to the SVG's URL, absolute, or missing;
         a raster, or an SVG image with references of its own — itself, an SVG met before, a new one),
         <use> of another document (the fetcher is called directly) and of a local element (no fetch)."""
@@ -378,6 +406,8 @@ class DocGen:
         parts, items = [], []
         for _ in range(rng.choice([1, 1, 2, 3])):
             r = rng.random()
+            if css:
+                r = 0.2 + 0.52 * r        # rasters and <image> without href only
             if r < 0.2:
                 # an SVG image inside the SVG image: this very document, one generated before, or a new one
                 known = [u for u in self.svg_docs if not u.startswith(('data:', 'inline:'))]
@@ -396,7 +426,7 @@ class DocGen:
                 text, inner = self.url('inner', rng.choice(['png', 'jpg']), base=url)
                 if inner.startswith('data:'):
                     text = inner = f'http://res.test/inner{self.n}x{next(self.ids)}.png'
-                spec = fail_spec(rng, doc_images(rng), 0.35, mimes=[None, 'image/png', 'text/html'], escaping=0.1)
+                spec = fail_spec(rng, doc_images(rng), 0.35, mimes=[None, 'image/png', 'text/html'], escaping=0 if css else 0.1)
                 if spec.kind == 'resp' and spec.content.name == 'xhtml':
                     spec.content = R.bank()['html']
                 self.table[inner] = spec
@@ -422,7 +452,7 @@ class DocGen:
         self.svg_docs[url] = (content, items)
         string = rng.random() < 0.7
         return Spec('resp', content=content, string=string, file_obj=None if string else (None, False),
-                    mime=rng.choice(['image/svg+xml', None, 'image/png']))
+                    mime=rng.choice(['image/svg+xml', None] if css else ['image/svg+xml', None, 'image/png']))
 
     def api_list(self, drop_failed=False):
         return [u for u in self.api_attachments if not (drop_failed and self.table[u].kind == 'raises')]
@@ -451,6 +481,14 @@ class DocGen:
             src = None if drop else ref['text']
             orient = {'from-image': '', 'none': 'image-orientation:none;'}.get(ref['orient'], 'image-orientation:90deg;')
             kind = ref['kind']
+            if kind == 'marginbox':
+                image = f"url('{src}') " if src is not None else ''
+                rules.append(f'@page{{margin-top:14px;@top-left{{content:{image}"M";font-size:10px}}}}')
+                continue
+            if kind == 'pagebg':
+                if src is not None:
+                    rules.append(f"@page{{background-image:url('{src}');background-repeat:no-repeat}}")
+                continue
             if kind == 'inlinesvg':
                 inner = ref['svg'].data.decode()
             elif kind == 'img':
@@ -468,6 +506,9 @@ class DocGen:
             elif kind == 'borderimage':
                 decl = f'border-image-source:url(\'{src}\');' if src is not None else ''
                 inner = f'<div id=bg{i} style="border:2px solid;{decl}width:30px;height:10px"></div>'
+            elif kind == 'maskborder':
+                decl = f'mask-border-source:url(\'{src}\');mask-border-slice:1;' if src is not None else ''
+                inner = f'<div id=bg{i} style="border:2px solid;{decl}width:30px;height:10px;background:lime"></div>'
             elif kind == 'liststyle':
                 decl = f'list-style-image:url(\'{src}\');' if src is not None else ''
                 inner = f'<ul><li id=li{i} style="{decl}{orient}">x</li></ul>'
@@ -501,9 +542,9 @@ class DocGen:
             else:
                 styles.append(['el', True, 'none', 'none', enc('stylesheet'), enc(style['text']), enc(style['url']), [],
                                self.sheet_wire(style['sheet'])])
-        ordered = [r for r in self.images if r['kind'] not in LATE] + [r for r in self.images if r['kind'] in LATE]
+        ordered = [self.images[i] for i in fetch_order(self.images)]
         images = [['inlinesvg', r['svg'].id] if r['kind'] == 'inlinesvg' else
-                  [{'liststyle': 'liststyle'}.get(r['kind'], r['kind']), enc(r['url']), enc(r['alt']),
+                  [{'marginbox': 'content', 'pagebg': 'background'}.get(r['kind'], r['kind']), enc(r['url']), enc(r['alt']),
                    r['orient'] if isinstance(r['orient'], str) else list(r['orient']), enc(r['forced'])] for r in ordered]
         fs = [[enc(path), content.id] for path, content in self.fs.items()]
         table = R.Recorder(self.table).sx()
@@ -616,7 +657,7 @@ def painted(box):
     if background:
         layers = tuple((image_identity(layer.image), rounded(layer.size), rounded(layer.position), rounded(layer.repeat),
                         rounded(layer.painting_area), rounded(layer.positioning_area)) for layer in background.layers)
-    return layers, image_identity(getattr(box, 'border_image', None))
+    return layers, image_identity(getattr(box, 'border_image', None)), image_identity(getattr(box, 'mask_border_image', None))
 
 
 def ref_boxes(document, gen):
@@ -635,9 +676,20 @@ def ref_boxes(document, gen):
         inside = list(walk(wrapper))[1:] if wrapper is not None else []
         replaced = any(isinstance(b, boxes.ReplacedBox) for b in inside)
         texts = ''.join(b.text for b in inside if isinstance(b, boxes.TextBox))
-        if kind == 'borderimage':
+        if kind == 'marginbox':
+            margin = [b for b in document.pages[0]._page_box.children if getattr(b, 'at_keyword', None) == '@top-left']
+            shown = ['replaced'] if any(isinstance(b, boxes.ReplacedBox) for m in margin for b in walk(m)) else []
+        elif kind == 'pagebg':
+            from weasyprint.images import RasterImage, SVGImage
+            background = document.pages[0]._page_box.background
+            shown = ['replaced'] if (background and any(isinstance(layer.image, (RasterImage, SVGImage))
+                                                      for layer in background.layers)) else []
+        elif kind == 'borderimage':
             box = by_id.get(f'bg{i}')
             shown = ['replaced'] if (box is not None and getattr(box, 'border_image', None) is not None) else []
+        elif kind == 'maskborder':
+            box = by_id.get(f'bg{i}')
+            shown = ['replaced'] if (box is not None and getattr(box, 'mask_border_image', None) is not None) else []
         elif kind == 'background':
             box = by_id.get(f'bg{i}')
             from weasyprint.images import RasterImage, SVGImage
@@ -652,8 +704,7 @@ def ref_boxes(document, gen):
         else:
             shown = ['replaced'] if replaced else []
         out[i] = '[' + ','.join(shown) + ']'
-    ordered = [i for i, r in enumerate(gen.images) if r['kind'] not in LATE] + \
-              [i for i, r in enumerate(gen.images) if r['kind'] in LATE]
+    ordered = fetch_order(gen.images)
     return [out[i] for i in ordered]
 
 
@@ -667,6 +718,29 @@ def applied_rules(document, gen):
                 if box.width == n:
                     found.add(n)
     return sorted(found)
+
+
+def painted_streams(pdf):
+    """What is painted: the content stream of every page and of every form XObject (groups, patterns, SVG images), in
+    object order.  Images and fonts are referred to by resource names given in order of first use, so two renderings that
+    paint the same things give the same bytes."""
+    import pydyf
+    out = []
+    for page_reference in pdf.page_references:
+        page = pdf.objects[int(page_reference.split()[0])]
+        contents = page.get('Contents')
+        references = [contents] if isinstance(contents, (str, bytes)) else list(contents or [])
+        for reference in references:
+            text = reference.decode() if isinstance(reference, bytes) else str(reference)
+            out.append(('page', stream_bytes(pdf.objects[int(text.split()[0])])))
+    for obj in pdf.objects:
+        if isinstance(obj, pydyf.Stream) and obj.extra.get('Subtype') == '/Form':
+            out.append(('form', stream_bytes(obj)))
+    return out
+
+
+def stream_bytes(obj):
+    return b'\n'.join(item if isinstance(item, bytes) else str(item).encode() for item in obj.stream)
 
 
 def pdf_attachments(pdf):
@@ -724,6 +798,7 @@ def run_real(gen, drop_failed=False, watch=True):
                 document.write_pdf(finisher=lambda doc, pdf: holder.setdefault('pdf', pdf), uncompressed_pdf=True,
                                    attachments=gen.api_list(drop_failed) or None)
                 obs['embedded'], obs['annots'] = pdf_attachments(holder['pdf'])
+                obs['painted'] = painted_streams(holder['pdf'])
             except Exception as exc:  # noqa: BLE001
                 obs['write'] = f'err:{type(exc).__name__}'
     if cache_folder:
@@ -789,7 +864,7 @@ def section(run):
                     'svg_only_escapes': svg_only_escapes(gen)}
             if plain:
                 meta['replay'] = payload(gen, '')['input']
-            elif 'absent=DIFF' in out:
+            elif 'absent=DIFF' in out or 'absent=PAINT-DIFF' in out:
                 meta['absent'] = absent_payload(gen)
             sec.add(line, out, meta=meta, nontrivial=nontrivial, tags=sorted(gen.kinds) + outcome + (['plain'] if plain else []))
         sec.flush()
@@ -803,7 +878,7 @@ def section(run):
 # ----------------------------------------------------------------------------------------------------
 # the complete matrix: every resource kind x every failure kind, one document each
 
-MATRIX_KINDS = ['link', 'import', 'font', 'img', 'embed', 'object', 'background', 'borderimage', 'liststyle', 'content',
+MATRIX_KINDS = ['link', 'import', 'font', 'img', 'embed', 'object', 'background', 'borderimage', 'maskborder', 'liststyle', 'content',
                 'meta', 'annot', 'api', 'svgimage', 'svguse', 'inlinesvgimage']
 MATRIX_MODES = ['ok', 'raises', 'empty', 'truncated', 'wrongtype', 'html', 'wrongmime', 'readerror', 'notdict', 'closewarn',
                 'truncated-open']
@@ -878,7 +953,7 @@ def matrix_document(rng, tmp, kind, mode):
         gen.table[url] = spec
         gen.styles.append({'kind': 'style', 'items': [
             {'kind': 'fontface', 'key': next(_counter), 'srcs': [{'kind': 'ext', 'text': url, 'url': url, 'spec': spec}]}]})
-    elif kind in ('img', 'embed', 'object', 'background', 'borderimage', 'liststyle', 'content'):
+    elif kind in ('img', 'embed', 'object', 'background', 'borderimage', 'maskborder', 'liststyle', 'content'):
         url = f'http://res.test/pic{n}.png'
         gen.table[url] = matrix_spec('image', mode)
         layers = None
@@ -962,7 +1037,7 @@ def matrix_section(run):
             meta = {'base': gen.base, 'kinds': sorted(gen.kinds), 'plain': plain, 'html': gen.html()}
             if plain:
                 meta['replay'] = payload(gen, '')['input']
-            elif 'absent=DIFF' in out:
+            elif 'absent=DIFF' in out or 'absent=PAINT-DIFF' in out:
                 meta['absent'] = absent_payload(gen)
             regression = (kind, mode) in REGRESSION_CELLS
             sec.add(line, out, meta=meta, nontrivial=mode != 'ok' or regression,
@@ -984,6 +1059,8 @@ def one_document(gen):
         same = (other['fingerprint'] == obs['fingerprint'] and other['embedded'] == obs['embedded'] and
                 other['annots'] == obs['annots'] and other['write'] == 'ok')
         absent = 'eq' if same else 'DIFF'
+        if same and other.get('painted') != obs.get('painted'):
+            absent = 'PAINT-DIFF'      # same boxes, same attachments, but the pages are not painted the same way
     return sx.line('doc', gen.wire()), show_real(gen, obs, absent), failed_any
 
 
@@ -1074,6 +1151,13 @@ def oracle(html, base, table, tmp_prefix, expect, options=None):
             return f'the document without the failed references raised {type(exc).__name__}'
         if fingerprint(other) != fingerprint(document):
             return 'the layout differs from the layout of the same document without the failed references'
+        other_holder = {}
+        try:
+            other.write_pdf(finisher=lambda doc, pdf: other_holder.setdefault('pdf', pdf), uncompressed_pdf=True)
+        except Exception as exc:  # noqa: BLE001
+            return f'writing the document without the failed references raised {type(exc).__name__}'
+        if painted_streams(other_holder['pdf']) != painted_streams(holder['pdf']):
+            return PAINT_DIFF
     return None
 
 
@@ -1152,7 +1236,7 @@ def expectations(gen):
     urls = set(gen.table) | {r['url'] for r in gen.images if r['url']}
     replaced, alt = [], {}
     for i, ref in enumerate(gen.images):
-        if not ref['url'] or ref['kind'] in LATE:
+        if not ref['url'] or ref['kind'] in LATE or ref['kind'] in PAGE_KINDS:
             continue
         spec = gen.table[ref['url']]
         loads = spec.delivers and spec.content.image_loads
@@ -1188,6 +1272,10 @@ def payload(gen, what):
             'signature': 'doc:' + what[:60]}
 
 
+PAINT_DIFF = ('the pages are not painted like those of the document without the failed references: same boxes, same '
+              'attachments, different content streams')
+
+
 def absent_payload(gen):
     """What is needed to render a document and the document without its failed references again (replay files)."""
     return {'html': gen.html(), 'absent_html': gen.html(True), 'base': gen.base,
@@ -1213,11 +1301,13 @@ def absent_check(inp):
         except Exception as exc:  # noqa: BLE001
             results.append(f'err:{type(exc).__name__}')
             continue
-        results.append((fingerprint(document), pdf_attachments(holder['pdf'])))
+        results.append((fingerprint(document), pdf_attachments(holder['pdf']), painted_streams(holder['pdf'])))
     if isinstance(results[0], str) or isinstance(results[1], str):
         return None      # this input no longer reaches the comparison
-    if results[0] != results[1]:
+    if results[0][:2] != results[1][:2]:
         return 'the result differs from the result of the document without the failed references'
+    if results[0][2] != results[1][2]:
+        return PAINT_DIFF
     return None
 
 
